@@ -31,6 +31,7 @@ CHECKS["C01"] = {
              "(chunked large messages wrap s=255), static/adaptive timeouts, keepalive on/off, latency below the resend timeout, an independent per-packet "
              "drop/dup(1-3)/delay script per direction (delays include values equal to the resend timeout), applied after or (1 in 6) during the handshake. "
              "Oracle: on each direction the Recv results are a byte-exact prefix of the messages offered before the first failed Send. "
+             "In a quarter of the cases a receiving application stays out of Recv for up to 5 resend timeouts at the start and/or after every k-th message (k in 1, 2, N, N+1, 3N) while the peer keeps sending. "
              "Non-trivial: at least one fault hit a DATA/ACK/NACK packet and a retransmission was observed; distinct by scenario JSON."),
     "assumptions": ["transport model: FIFO per direction with drop/adjacent-duplicate/delay (vnet.Link)", "goroutine schedules are sampled, not enumerated"],
     "units": [
@@ -122,7 +123,9 @@ CHECKS["C12"] = {
              "with Send blocked on a full window, Recv blocked, unacknowledged data, faults active, transport working or black-holed, and applications that never call Recv on one or both ends (receive buffer full at Close); context cancellation during NewClientConn/NewServerConn; and (real time) a transport whose sendFunc blocks. "
              "Oracles: every Close returns within FIN send timeout (1s) + 50ms of virtual time; blocked Send/Recv return errors and later calls fail within 50ms; over a working transport the peer's calls fail within one latency + 50ms; "
              "10 virtual minutes after both ends are closed no goroutine with a frame of the code under test remains in the bubble (runtime.Stack) and synctest reports no blocked goroutine. "
-             "The same Close oracles are applied to mailbox.ClientConn / ServerConn over the in-memory relay in virtual time (TestC12MailboxClose: who/when/how many callers/traffic in flight/FIN deliverable or swallowed; Done() closed, peer notices by FIN within one latency or by the 5s/7s/3s keepalive, later Write fails, no goroutine left). Non-trivial: a Send was blocked or data was unacknowledged at the first Close, or several Close calls were made; every cancellation / blocking-transport / mailbox case with traffic or several callers."),
+             "The same Close oracles are applied to mailbox.ClientConn / ServerConn over the in-memory relay in virtual time (TestC12MailboxClose: who/when/how many callers/traffic in flight/FIN deliverable or swallowed; Done() closed, peer notices by FIN within one latency or by the 5s/7s/3s keepalive, later Write fails, no goroutine left). TestC12SelfClose: the connection is closed by one of its own loops instead of the application - a frame its receive loop cannot decode (14 kinds: empty, truncated DATA/ACK/NACK/SYN, unknown types, SYN/SYNACK in the data phase), a recvFunc error (io.EOF or other), or one failed sendFunc call, at a drawn moment of a conversation in which both applications read and write, round trip below every timeout, no keepalive, optionally followed by the application's own Close: "
+             "the endpoint's blocked Recv fails, a FIN is handed to the peer within one latency + 100 ms (the direction towards the peer works), the peer's blocked and later calls fail, and nothing is left running. "
+             "Non-trivial: a Send was blocked or data was unacknowledged at the first Close, or several Close calls were made; every cancellation / blocking-transport / self-close / mailbox case with traffic or several callers."),
     "assumptions": ["timers without a goroutine are not observable by the leak detector", "blocking-transport cases run in real time with a 10x bound"],
     "units": [
         {"pkg": "gbnprop", "run": "TestC12Close", "checks": (3000, 40000), "shards": (1, 8), "timeout": (900, 5400), "gomaxprocs": [16, 1, 2, 4]},
@@ -192,7 +195,7 @@ CHECKS["C07"] = {
 CHECKS["C03"] = {
     "level": "exploration",
     "rule": ("rapid-generated handshakes over an in-memory message pipe that records every byte: XX with equal / one-bit-different (any of the 112 bits) / random / shorter / zero-padded (differing only by a trailing zero byte) passphrases, all compatible version ranges, "
-             "KK with each side's stored remote key right or wrong, and KK impostors (either role presents the paired public key but computes its ECDH with an unrelated private key), drawn static keys, deterministic ephemerals, auth payloads 16 B .. 200 KB. Oracle: both DoHandshake succeed iff the secrets match; on a mismatch the responder "
+             "KK with each side's stored remote key right or wrong, KK impostors (either role presents the paired public key but computes its ECDH with an unrelated private key) and KK parties whose private-key operation fails (initiator, responder or both), drawn static keys, deterministic ephemerals, auth payloads 16 B .. 200 KB. Oracle: both DoHandshake succeed iff the secrets match; on a mismatch the responder "
              "returns an error having written zero bytes, the initiator returns an error, its AuthData is unchanged (nil, or the stale payload it held before), no onAuthData/onRemoteStatic callback fired, and the (high-entropy) payload appears nowhere on the wire. "
              "Non-trivial: the mismatch cases; distinct by configuration."),
     "assumptions": ["scrypt cost lowered by the verif hook (as the repo's rpctest tag does)"],
@@ -221,7 +224,7 @@ CHECKS["C17"] = {
     "rule": ("rapid-generated 14-byte entropies (plus all-zero, all-one and all 112 single-bit patterns), 10-word phrases from aezeed.DefaultWordList (plus first/last word repeated), static key pairs and pairs of secrets. "
              "Oracle: MnemonicToEntropy(EntropyToMnemonic(e)) == e with the two unused low bits cleared; EntropyToMnemonic(MnemonicToEntropy(w)) == w; NewPassphraseEntropy is consistent; client and server ConnData.SID agree for "
              "the same passphrase and, after SetRemote on both, agree with each other and differ from the passphrase SID (and the pattern switches XX->KK); GetSID(sid,true) and GetSID(sid,false) differ in exactly the last bit; "
-             "distinct passphrases / client keys give distinct SIDs; the stream-direction clause is also observed at the in-memory relay (TestC17Streams), on the first connection and on up to three further connections of the session built with RefreshClientConn / RefreshServerConn. Non-trivial: entropy with an unused low bit set, every phrase and SID case."),
+             "distinct passphrases / client keys give distinct SIDs; the stream-direction clause is also observed at the in-memory relay (TestC17Streams), on the first connection and on up to three further connections of the session built with RefreshClientConn / RefreshServerConn. The ConnData callbacks of both parties call back into their ConnData (SID, RemoteKey, AuthData, HandshakePattern) as SetRemote / SetAuthData allow; static keys whose ECDH operation fails must not yield a SID shared with an unrelated failing pair. Non-trivial: entropy with an unused low bit set, every phrase and SID case."),
     "assumptions": ["stream-direction agreement is relative to the in-memory relay"],
     "units": [
         {"pkg": "mboxprop", "run": "TestC17Codec", "checks": (20000, 400000), "shards": (1, 4), "timeout": (600, 3600)},
@@ -249,7 +252,8 @@ CHECKS["C08"] = {
     "rule": ("rapid-generated sessions (XX v0/v1/v2, KK) followed by up to 12 runs of records (4500 records per case in the quick tier, 20000 in the thorough tier; run lengths include 499/500/501/999/1000/1001 around the rotation every 500 records), "
              "directions interleaved arbitrarily, a sixth of the runs with the first Flush of every record interrupted by a write timeout after 1..400 bytes - in half of the cases with writes and reads as separate steps, so that records of both directions are in flight while each side passes rotation boundaries -, sizes 0..65535, plaintext kinds: all-equal, the 2-byte body that equals its own length header, distinct random. Oracles per record: the (key, nonce) pair (hook) is new within its direction and the two directions never share a key; "
              "wire length is 18+len+16; the encrypted header never repeats; equal plaintexts never give equal ciphertext; a 2-byte body never equals any header ciphertext; no 16-byte window of plaintext or auth payload is on the wire (records and handshake); "
-             "the peer decrypts every record to exactly what was written. Non-trivial: the stream crossed at least one rotation and contained equal plaintexts; distinct by case."),
+             "the peer decrypts every record to exactly what was written. TestC08Duplex: the two directions interleaved inside a record (the duplex runner of C16 (e)): each direction keeps decrypting to what was written when the other direction's records are written / read between the fragments of this one. "
+             "Non-trivial: the stream crossed at least one rotation and contained equal plaintexts; distinct by case."),
     "assumptions": ["scrypt cost lowered by the verif hook"],
     "units": [
         {"pkg": "mboxprop", "run": "TestC08CipherStream", "checks": (400, 3000), "shards": (1, 8), "timeout": (900, 3600)},
@@ -263,7 +267,9 @@ CHECKS["C16"] = {
              "(b)+(c) partial writes: all two- and three-way partitions of the wire bytes of a record for payload sizes 0..24 (exhaustive) and rapid partitions with up to 12 cut points for sizes up to 65535 at positions incl. across a key rotation; "
              "the peer reads the re-assembled record through a fragmenting reader. Oracle: the bytes accepted over all Flush calls equal the wire record of a reference session written in one go, exactly once; the Flush counts sum to the plaintext length; "
              "WriteMessage while bytes are pending returns ErrMessageNotFlushed; an extra Flush is a no-op; the peer decrypts the record and the following one. "
-             "(d) NoiseConn.Write (1-3 writes of 0..200000 bytes, chunked above 65535) over a transport that times out at up to 8 drawn wire offsets (anywhere, and near record boundaries), resumed as documented (Flush until it succeeds, add every count, Write the unreported rest): the peer must decrypt exactly the bytes written, once. Non-trivial: every fragmented handshake, every partition with >= 1 cut."),
+             "(d) NoiseConn.Write (1-3 writes of 0..200000 bytes, chunked above 65535) over a transport that times out at up to 8 drawn wire offsets (anywhere, and near record boundaries), resumed as documented (Flush until it succeeds, add every count, Write the unreported rest): the peer must decrypt exactly the bytes written, once. (e) TestC16Duplex: one Machine used in both directions at once: 1-5 outbound records accepted by the transport in pieces (up to 10 timeouts, many inside the 18-byte header) while 1-5 inbound records arrive in short reads (1..70000 bytes per read); a drawn schedule runs 0-2 writer steps (WriteMessage+Flush / Flush of the rest) before each inbound fragment, from inside the reader callback; bytes accepted must equal the reference session's wire records, Flush counts the plaintext, both peers decrypt everything. "
+             "(f) TestC16Coalesce: handshake and first records over lazy byte streams (a Read is served only when the peer waits for data itself or has finished, up to a drawn cap per Read of 1 byte .. unlimited), so that the last handshake act is read with the peer's first 0-4 records already behind it: handshake succeeds and each side reads exactly what the other wrote. "
+             "Non-trivial: every fragmented handshake, every partition with >= 1 cut, duplex cases with write timeouts and writer steps between inbound fragments, coalescing cases with records behind the last act."),
     "exhaustive_scope": "36 ranges x 2 patterns x 5 fragment sizes x 3 payloads; all <=3-way partitions for payloads 0..24",
     "assumptions": ["scrypt cost lowered by the verif hook"],
     "units": [
@@ -282,7 +288,9 @@ CHECKS["C15"] = {
              "(1, 2, 3, 7, 64, 1000, 32767, 32768, 32769, 65535, 65536, 70000, cycled) for NoiseGrpcConn (real Client/ServerHandshake over an in-memory ProxyConn), NoiseConn (hook constructor over an in-memory conn) and the plain mailbox conn "
              "(mailbox.NewClientConn/NewServerConn over gbn over the in-memory relay, virtual time), both directions, XX and KK. Oracle: every Read returns 0 <= n <= len(buf), never touches memory beyond the buffer, returns no error while the peer is open, "
              "and the concatenation read equals the concatenation written; Write returns len(b), nil, or (gRPC, > 65535) 0 and ErrMaxMessageLengthExceeded with nothing delivered. The mailbox variant runs on the first, second or third connection of a session (Refresh*Conn); a later connection that dies right after its handshake of what the previous one left in the relay streams is skipped (C10/C11). "
-             "TestC15LengthSweep passes every write length 0..1100 and 2^k+-2 up to the record limit (140000 on the TCP variant) once through each connection type and direction, read back with a buffer cycle. Non-trivial: some read buffer was smaller than the largest write; distinct by case."),
+             "TestC15LengthSweep passes every write length 0..1100 and 2^k+-2 up to the record limit (140000 on the TCP variant) once through each connection type and direction, read back with a buffer cycle. TestC15Interleaved: two sessions of a kind (grpc / tcp) alive in one process, both directions each, everything written first, then the four readers advance one Read at a time in a drawn order (up to 40 scripted steps, then round-robin) with drawn buffer sizes, so that records are left half-read while other connections read; per stream the same oracle. "
+             "TestC15Coalesce: see C16 (f): no byte written right behind the handshake is lost. "
+             "Non-trivial: some read buffer was smaller than the largest write (interleaved: a record was left half-read while another connection read); distinct by case."),
     "assumptions": ["the mailbox variant is relative to the in-memory relay model"],
     "units": [
         {"pkg": "mboxprop", "run": "TestC15Grpc", "checks": (1500, 20000), "shards": (1, 4), "timeout": (900, 3600)},
@@ -297,7 +305,7 @@ CHECKS["C15"] = {
 CHECKS["C05"] = {
     "level": "exploration",
     "rule": ("rapid-generated end-to-end runs in virtual time: mailbox.NewServerConn + NewClientConn over the in-memory relay (both cipher boxes pre-created), NoiseGrpcConn.ServerHandshake/ClientHandshake on top (XX, KK in 1/4), "
-             "0-8 writes per direction of 1..65535 bytes (boundaries 32767/32768/32769/65535) with concurrent readers, relay latency 0..200ms, and a finite per-message drop/delay script on each relay stream armed after the GBN handshake (1/4) or after the Noise handshake (3/4). "
+             "0-8 writes per direction of 1..65535 bytes (boundaries 32767/32768/32769/65535), in 1/12 more than 500 small writes in one direction, in 1/6 a burst of 30-90 small writes back to back in one direction with 5-20% of 60-200 relay messages lost (the GBN window of 20 wraps several times with losses at every position of the lap), with concurrent readers, relay latency 0..200ms, and a finite per-message drop/delay script on each relay stream armed after the GBN handshake (1/4) or after the Noise handshake (3/4). "
              "Oracles: bytes read on each side are a prefix of the bytes written on the other; 300 virtual seconds after the scripts are exhausted either both streams are complete or both sides have observed a Read/Write error; "
              "no CipherBox payload the relay ever saw contains the first or a middle 16-byte window of any written plaintext >= 16 bytes or of the auth payload; the client's AuthData equals the server's. "
              "A second, real-time family (TestC05RealTime, 32 conversations concurrently per batch) injects stream errors (the next 1-2 Send or Recv calls on a relay stream fail), relay outages (down/up) and, in a third of the cases, 9-20 s of silence (every message swallowed, longer than the 5s/7s+3s keepalive periods) at drawn moments during a paced transfer, in half of the cases on the second connection of the session (both ends closed and refreshed with RefreshClientConn / RefreshServerConn); same safety and confidentiality oracles, progress bound 90 real seconds after the relay is healthy again. Non-trivial: a relay fault was applied and a write >= 16 bytes was transferred; distinct by case."),
@@ -312,7 +320,7 @@ CHECKS["C11"] = {
     "level": "exploration",
     "rule": ("model-based generated session histories over mailbox.Server (accept loop as a grpc server runs it) and mailbox.Client (Dial) on the in-memory relay, in REAL time (the mailbox conns sleep in their re-connect back-off under the mutex Close needs, "
              "which a synctest bubble cannot schedule), 40 sessions concurrently per batch: actions connect (with drawn Dial offset; optionally Dial issued while the previous connection is still open), transfer (echo of 1..40000 bytes), close_client, close_server, wait, "
-             "intruder (a second client that only knows the passphrase), server max handshake version 0/1/2. Invariants: Accept / Dial never return while the connection previously handed out by the same object has an open Done(); "
+             "intruder (a second client that only knows the passphrase), relay_restart (the relay forgets every mailbox and queued message and breaks every stream, as a restarted hashmail server does; both sides give the connection up and the next connect must work), server max handshake version 0/1/2. Invariants: Accept / Dial never return while the connection previously handed out by the same object has an open Done(); "
              "after a close a working secured connection (echo succeeds) is re-established within 12 dial attempts; after a version-2 pairing both ConnData agree on a new SID different from the passphrase SID, hold each other's true key, "
              "the next connection uses the KK pattern on the key-derived stream ids; a version 0/1 pairing stores no key; the passphrase-only client never completes a handshake nor obtains the auth payload after the switch; in 2/5 of the sessions the first 1-2 DelCipherBox calls of the relay fail (they occur when the server tears down the passphrase mailboxes); "
              "the peer of a closed side notices within 30s. In half of the sessions the context given to Dial is cancelled as soon as Dial returns (dialer convention). "
